@@ -1,7 +1,9 @@
 import Afkak.Consumer
 import Afkak.Monitor.C02
 import Afkak.Monitor.C03
+import Afkak.Monitor.C03Store
 import Afkak.Monitor.C13
+import Afkak.Monitor.C13Commit
 import Afkak.Monitor.C14
 import Afkak.ConsumerInv
 import Driver.Util
@@ -250,12 +252,15 @@ def evalMon (cfg : Cfg) (name : String) (tr : List Item) : Option Bool :=
   | "c03-resume" => some (Afkak.Monitor.C03.resumeOk tr)
   | "c03-failure-stops" => some (Afkak.Monitor.C03.failureStopsOk tr)
   | "c03-commit-reports" => some (Afkak.Monitor.C03.commitReportsOk tr)
+  | "c03-ack-recorded" => some (Afkak.Monitor.C03.ackRecordedOk tr)
+  | "c03-resume-asks" => some (Afkak.Monitor.C03.resumeAsksOk tr)
   | "c13-start-once" => some (Afkak.Monitor.C13.startOnceOk tr)
   | "c13-fires-once" => some (Afkak.Monitor.C13.firesOnceOk tr)
   | "c13-quiescent" => some (Afkak.Monitor.C13.quiescentOk tr)
   | "c13-shutdown" => some (Afkak.Monitor.C13.shutdownOk cfg.group tr)
   | "c13-shutdown-inproc" => some (Afkak.Monitor.C13.shutdownInprocOk cfg.group tr)
   | "c13-no-crash" => some (Afkak.Monitor.C13.noCrashOk tr)
+  | "c13-commit-bounded" => some (Afkak.Monitor.C13.commitBoundedOk cfg.maxAttempts tr)
   | "c14-delays" => some (Afkak.Monitor.C14.delaysOk cfg.retryInit cfg.retryMax tr)
   | "c14-reset" => some (Afkak.Monitor.C14.resetOk cfg.reset tr)
   | "c14-growth" => some (Afkak.Monitor.C14.growthOk cfg.bufInit cfg.bufMax tr)
